@@ -30,6 +30,7 @@ void (*g_real_lock)(PlatformSpecificMutex);
 void (*g_real_unlock)(PlatformSpecificMutex);
 std::atomic<long> g_locks, g_unlocks, g_contended;
 std::atomic<int> g_relock_while_held;       // same thread acquired again while holding: would be a self-deadlock
+std::atomic<int> g_unlock_of_other_mutex;   // the holder released a mutex that is not the one it holds (the held one stays locked)
 std::atomic<uintptr_t> g_owner{0}; std::atomic<int> g_held; int g_depth; PlatformSpecificMutex g_last_mutex;   // g_owner = holder's thread id (0: free); g_depth/g_last_mutex only touched by the holder
 
 struct Sched { const uint8_t* steps; size_t n; size_t i; };
@@ -58,6 +59,7 @@ void seam_unlock(PlatformSpecificMutex m) {
     forced_yield();
     g_unlocks++;
     if (g_owner.load(std::memory_order_acquire) == (uintptr_t)pthread_self() && g_depth > 0) { g_depth--; return; }
+    if (g_owner.load(std::memory_order_acquire) == (uintptr_t)pthread_self() && m != g_last_mutex) { g_unlock_of_other_mutex++; return; }   // the real call would be undefined; the held mutex stays held
     g_owner.store(0, std::memory_order_release); g_held.store(0, std::memory_order_release);
     g_real_unlock(m);
     forced_yield();
@@ -183,7 +185,7 @@ int part_a(Reader& r, bool& nontrivial, std::string& desc) {
 }
 
 // ---------------------------------------------------------------- part B: misuse while the lock is held
-struct BCase { int misuse; int fam; int size; int after_allocs; int output; };   // output: 0 string buffer, 1 collecting (keeps new-ed copies of failures, like JUnit), 2 JUnitTestOutput
+struct BCase { int misuse; int fam; int size; int after_allocs; int output; int swap; };   // swap: the global detector is replaced while the thread-safe mode is on   // output: 0 string buffer, 1 collecting (keeps new-ed copies of failures, like JUnit), 2 JUnitTestOutput
 BCase g_b; int g_b_continued;
 void part_b_body(void*) {
     // runs as a test body with the thread-safe overloads ON and the default global detector/reporter
@@ -214,9 +216,12 @@ void null_fputs(const char*, PlatformSpecificFile) {}
 void null_fclose(PlatformSpecificFile) {}
 
 int run_part_b(std::string& desc, bool& reported, long& locks, long& unlocks, int& relock) {
-    g_locks = 0; g_unlocks = 0; g_contended = 0; g_relock_while_held = 0; g_held = 0; g_owner = 0; g_depth = 0; g_b_continued = 0;
+    g_locks = 0; g_unlocks = 0; g_contended = 0; g_relock_while_held = 0; g_unlock_of_other_mutex = 0; g_held = 0; g_owner = 0; g_depth = 0; g_b_continued = 0;
     MemoryLeakDetector* det = MemoryLeakWarningPlugin::getGlobalDetector(); det->enable();
+    MemoryLeakDetector* second = g_b.swap ? new MemoryLeakDetector(g_default_rep) : nullptr;   // created while the overloads are off
+    if (second) second->enable();
     MemoryLeakWarningPlugin::turnOnThreadSafeNewDeleteOverloads();
+    if (second) MemoryLeakWarningPlugin::setGlobalDetector(second, g_default_rep);   // what a test does that installs its own detector for a while: the mode stays on
     size_t failures;
     {
         // a private one-test run whose output is chosen by the case (all of this allocates through the thread-safe entry points)
@@ -233,19 +238,22 @@ int run_part_b(std::string& desc, bool& reported, long& locks, long& unlocks, in
         for (int i = 0; i < g_b.after_allocs; i++) { char* q = new char[16]; delete[] q; }
         co.release(); delete ju;
     }
-    locks = g_locks; unlocks = g_unlocks; relock = g_relock_while_held;
+    locks = g_locks; unlocks = g_unlocks; relock = g_relock_while_held + g_unlock_of_other_mutex;
     MemoryLeakWarningPlugin::turnOffNewDeleteOverloads();
+    if (second) { MemoryLeakWarningPlugin::setGlobalDetector(g_default_det, g_default_rep); second->clearAllAccounting(mem_leak_period_all); }
     if (g_held.load()) { g_held.store(0); g_owner.store(0); g_depth = 0; g_real_unlock(g_last_mutex); }   // leave the mutex usable for the next case
     det->clearAllAccounting(mem_leak_period_all);
+    delete second;
     reported = failures >= 1;
     desc += sfmt(" -> %zu failure(s), %ld acquires / %ld releases, %d re-acquire(s) while held", failures, locks, unlocks, relock);
     return 0;
 }
 int part_b(Reader& r, bool& nontrivial, std::string& desc) {
-    g_b.misuse = (int)r.below(3); g_b.fam = (int)r.below(3); g_b.size = 1 + (int)r.below(64); g_b.after_allocs = 1 + (int)r.below(3); g_b.output = (int)r.below(3);
+    g_b.misuse = (int)r.below(3); g_b.fam = (int)r.below(3); g_b.size = 1 + (int)r.below(64); g_b.after_allocs = 1 + (int)r.below(3); g_b.output = (int)r.below(3); g_b.swap = r.below(3) == 1;
     static const char* MN[] = {"guard overrun", "release of a foreign address", "family mismatch"}; static const char* FN[] = {"new", "new[]", "malloc"};
     static const char* ON[] = {"string-buffer output", "collecting output", "JUnit output"};
-    desc = sfmt("B: %s on a %s block of %d bytes, %s, then %d more allocations", MN[g_b.misuse], FN[g_b.fam], g_b.size, ON[g_b.output], g_b.after_allocs);
+    desc = sfmt("B: %s%s on a %s block of %d bytes, %s, then %d more allocations", g_b.swap ? "global detector replaced while the mode is on, " : "", MN[g_b.misuse], FN[g_b.fam], g_b.size, ON[g_b.output], g_b.after_allocs);
+    if (g_b.swap) verif::cls("B:detector-replaced-in-thread-safe-mode");
     verif::cls(sfmt("B:%s", MN[g_b.misuse]).c_str()); verif::cls(sfmt("B:%s", ON[g_b.output]).c_str());
     nontrivial = true;
     if (verif::known("C10:lock-held-after-misuse")) return 0;      // listed finding: exactly this scenario is excluded (and counted)
@@ -278,7 +286,7 @@ extern "C" int verif_case(const uint8_t* data, size_t size) {
 }
 extern "C" int verif_known_repro(const char* key) {
     if (std::string(key) != "C10:lock-held-after-misuse") return -1;
-    g_b = BCase{0, 1, 8, 1, 0};
+    g_b = BCase{0, 1, 8, 1, 0, 0};
     std::string d; bool reported; long locks, unlocks; int relock;
     run_part_b(d, reported, locks, unlocks, relock);
     return (relock != 0 || locks != unlocks) ? 1 : 0;
